@@ -12,6 +12,7 @@ import Proofs.NoInternal
 import Proofs.MarkupSuccess
 import Proofs.MarkSuccess
 import Proofs.UnifyText
+import Proofs.InsertAtValid
 namespace PM.C01
 open PM
 
@@ -179,6 +180,125 @@ theorem apply_valid (S : Schema) (st : Step) (doc doc' : Node)
   | removeNodeMark pos m => exact removeNodeMark_valid S doc doc' pos m hd h
   | attr pos name value => exact attr_valid S doc doc' pos name value hd h
   | docAttr name value => exact docAttr_valid S doc doc' name value hd h
+
+/-! ### The payload condition of a replace-around step is a condition on its slice alone
+
+  `PayloadValid` asks, for a replace-around step, that the slice *with the gap content in place* is a valid payload —
+  a condition that mentions the document.  That was forced by a defect (finding C01-insert-inside-text): `insert_into`
+  tested `parent.can_replace(index, index, gap)` at the index of the child the insertion point falls in, but built
+  `text₁ ++ gap ++ text₂` when that child is a text node, so a step whose slice was valid could return an invalid
+  document.  The repair (`fix:` in /repo; model: `flatInsert`, PM/Replace.lean) validates the content that is built.
+  With it the quantifier of C01 — "slice payload itself schema-valid" — is all that is needed, for replace-around steps
+  too (`SliceValid`, `apply_valid'`). -/
+
+/-- "the step's payload is itself schema-valid", per step kind: for both replace kinds the **slice alone** is a valid
+    payload (`openValid`: every node valid, the nodes on the open sides up to their open end); for a replace-around step
+    the insertion point lies in the slice (`insert ≤ slice.size`, part of `StepWF`) and the slice content is in normal
+    form (no empty text node, no two adjacent text nodes with equal marks — what `Fragment.from_array` / `from_json`
+    build; used for slices with an open side only); mark steps: `TextStable` as in `PayloadValid`. -/
+def SliceValid (S : Schema) : Step → Prop
+  | .replace _ _ sl _ => openValid S sl.openStart sl.openEnd sl.content = true
+  | .replaceAround _ _ _ _ sl insert _ =>
+    openValid S sl.openStart sl.openEnd sl.content = true ∧ (insert : Int) ≤ sl.size ∧
+      ((sl.openStart = 0 ∧ sl.openEnd = 0) ∨ fnorm sl.content = true)
+  | .addMark .. => TextStable S
+  | .removeMark .. => TextStable S
+  | _ => True
+
+/-- what `insert_at` returns for a valid slice and the content of a closed gap cut from a valid document is a valid
+    payload again: a complete node that receives the gap accepted the content that was built, a node on an open side is
+    validated by `replace` when the slice is placed -/
+theorem insertAt_payload (S : Schema) (doc : Node) (gf gt ins : Nat) (sl gap res : Slice) (hd : Valid S doc)
+    (hv : openValid S sl.openStart sl.openEnd sl.content = true) (hins : (ins : Int) ≤ sl.size)
+    (hshape : (sl.openStart = 0 ∧ sl.openEnd = 0) ∨ fnorm sl.content = true)
+    (hgap : doc.slice gf gt = .ok gap) (hgc : gap.openStart = 0 ∧ gap.openEnd = 0)
+    (hres : sl.insertAt S ins gap.content = .ok (some res)) :
+    openValid S res.openStart res.openEnd res.content = true := by
+  have hgv := slice_openValid S doc gf gt gap hd hgap
+  rw [hgc.1, hgc.2] at hgv
+  have hg : S.checkKids gap.content = true := by simpa [openValid, rightOpenValid] using hgv
+  rcases hshape with hcl | hn
+  · exact insertAt_closed_openValid S sl res ins gap.content hg hcl.1 hcl.2 hv hres
+  · exact insertAt_openValid S sl res ins gap.content hg hn hins hv hres
+
+/-- **replace-around step, slice condition only** -/
+theorem replaceAround_valid' (S : Schema) (doc doc' : Node) (f t gf gt : Nat) (sl : Slice)
+    (ins : Nat) (st : Bool) (hd : Valid S doc)
+    (hp : SliceValid S (.replaceAround f t gf gt sl ins st))
+    (h : S.apply (.replaceAround f t gf gt sl ins st) doc = .ok doc') : Valid S doc' := by
+  obtain ⟨hv, hins, hshape⟩ := hp
+  unfold Schema.apply at h
+  simp only at h
+  split at h
+  · simp at h
+  · split at h
+    · simp at h
+    · rename_i gap hgap
+      split at h
+      · simp at h
+      · rename_i hopen
+        have hgc : gap.openStart = 0 ∧ gap.openEnd = 0 := by
+          simpa [not_or] using hopen
+        split at h
+        · simp at h
+        · simp at h
+        · rename_i inserted hinst
+          exact replace_valid S doc doc' f t inserted hd
+            (insertAt_payload S doc gf gt ins sl gap inserted hd hv hins hshape hgap hgc hinst) h
+
+/-- **C01, with the payload condition on the slice alone**: for every schema, every valid document and every step of
+    any of the eight kinds whose slice is itself schema-valid (`SliceValid`), whatever `apply` returns is a valid
+    document.  (`apply_valid` above asks more of a replace-around step — validity of the slice *with the gap content in
+    place* — and is kept for callers that hold that; for the six other kinds the two conditions coincide.) -/
+theorem apply_valid' (S : Schema) (st : Step) (doc doc' : Node)
+    (hd : Valid S doc) (hp : SliceValid S st) (h : S.apply st doc = .ok doc') : Valid S doc' := by
+  cases st with
+  | replace f t sl s => exact replaceStep_valid S doc doc' f t sl s hd hp h
+  | replaceAround f t gf gt sl ins s => exact replaceAround_valid' S doc doc' f t gf gt sl ins s hd hp h
+  | addMark f t m => exact addMark_valid S doc doc' f t m hd hp h
+  | removeMark f t m => exact removeMark_valid S doc doc' f t m hd hp h
+  | addNodeMark pos m => exact addNodeMark_valid S doc doc' pos m hd h
+  | removeNodeMark pos m => exact removeNodeMark_valid S doc doc' pos m hd h
+  | attr pos name value => exact attr_valid S doc doc' pos name value hd h
+  | docAttr name value => exact docAttr_valid S doc doc' name value hd h
+
+/-! The former counterexample (finding C01-insert-inside-text): schema `doc: para+`, `para: image* text*`;
+    `doc(para(image), para("z"))`, `ReplaceAroundStep(0, 3, 1, 2, <para("ab")>, insert = 2)`: the slice is valid, the
+    gap content (`image`) would land between the two halves of `"ab"`.  The old test `para.can_replace(0, 0, [image])`
+    passed and the step returned `doc(para("a", image, "b"), para("z"))`, which `check()` rejects; the repaired
+    `insert_into` asks `para` about `"a" image "b"` and the step is refused ("Content does not fit in gap"). -/
+section InsideText
+private def itnt (name : String) (inl : Bool) (dfa : Array DfaState) : NodeType :=
+  { name := name, isText := false, isInline := inl, isLeaf := false, isAtom := false,
+    inlineContent := false, isolating := false, defining := false, code := false,
+    dfa := dfa, markSet := some [], attrs := [] }
+/-- doc "para+", para "image* text*", image, text -/
+private def itS : Schema :=
+  { nodes := #[
+      itnt "doc" false #[⟨false, [(1, 1)]⟩, ⟨true, [(1, 1)]⟩],
+      { itnt "para" false #[⟨true, [(2, 0), (3, 1)]⟩, ⟨true, [(3, 1)]⟩] with inlineContent := true },
+      { itnt "image" true #[⟨true, []⟩] with isLeaf := true, isAtom := true },
+      { itnt "text" true #[⟨true, []⟩] with isText := true, isLeaf := true, isAtom := true }],
+    marks := #[], top := 0, textTy := 3 }
+private def itDoc : Node := .elem 0 [] [] [.elem 1 [] [] [.leaf 2 [] []], .elem 1 [] [] [.text [122] []]]
+private def itSl : Slice := ⟨[.elem 1 [] [] [.text [97, 98] []]], 0, 0⟩
+
+example : Valid itS itDoc := by rfl
+example : SliceValid itS (.replaceAround 0 3 1 2 itSl 2 false) := by
+  refine ⟨by simp only [itSl, openValid, rightOpenValid]; rfl, by simp [itSl, Slice.size], .inl ⟨rfl, rfl⟩⟩
+/-- what the old test looked at, and what is built -/
+example : itS.canReplace 1 [.text [97, 98] []] 0 0 [.leaf 2 [] []] 0 1 = some true ∧
+    itS.validContent 1 [.text [97] [], .leaf 2 [] [], .text [98] []] = false := by decide
+/-- the step is refused -/
+theorem insideText_refused : itS.apply (.replaceAround 0 3 1 2 itSl 2 false) itDoc = .error .failed := by
+  have hs : itDoc.slice 1 2 = .ok ⟨[.leaf 2 [] []], 0, 0⟩ := by
+    simp [Node.slice, Node.kids, itDoc, sliceKids, inRange, sliceScan, sliceHere, fcut, depthAt, Node.size, fsize]
+  have hv : itS.validContent 1 [.text [97] [], .leaf 2 [] [], .text [98] []] = false := by decide
+  have hi : itSl.insertAt itS 2 [.leaf 2 [] []] = .ok none := by
+    simp [Slice.insertAt, itSl, insertInto, flatInsert, fcut, fcutLoop, cutText, splitOk, isHigh, isLow, fappend,
+      addNode, hv, Node.size, fsize]
+  simp [Schema.apply, hs, hi]
+end InsideText
 
 /-- a slice cut from a valid document is a valid payload (so the quantifier is inhabited by every
     slice the correspondence run feeds to the model) -/
